@@ -164,6 +164,24 @@ def run(ctx):
     ctx.selftest_corrupt(TRACE, capped[0], corrupt_capacity, "a success beyond the stated capacity")
     spanned = [f for f in b1files if _first_run_fam(f) in ("fixedcap", "lockfree", "bump")] or b1files
     ctx.selftest_corrupt(TRACE, spanned[0], corrupt_span, "blocks of a single-arena pool further apart than its capacity")
+    # --- concurrent users of the same pools: "any two allocations that are live at the same time occupy disjoint
+    # byte ranges ... freeing returns the block for reuse without disturbing any other live block" also when the
+    # two owners are different threads.  The pools' behaviour under concurrent callers is specified in
+    # PoolOwnership.tla (the contract of property C08); its random-schedule and free-running drivers (harness bin
+    # c08) are run here as well, without the subjects that carry C08's own known findings, and judged by TLC
+    # (Trace_PoolConc).  A rejection is a violation of the overlap / reuse clauses of C07.
+    ctx.build("c08")
+    conc_subjects = ("fcp,fcp_lazy,fcp_tiny,fcp_small,fcp_medium,fcp_rt,fcp_sec,fcp_secraw,fcp_seclazy,lfp,lfp_def,lfp_hp,lfp_zero,"
+                     "fl5,fl5_h3,fl5_perf,fl5_mem,fl5_rt,mx5,mx5_h2,sec0,sec1,sec2,sec8,sec_small,sec_nz,sec_cfg,basic,basic_small")
+    sc1 = ctx.harness("c08", "rsched", "conc_rsched", subject=conc_subjects, timeout=1500, allow_fail=True)
+    sc2 = ctx.harness("c08", "stress", "conc_stress", subject=conc_subjects, timeout=2400, allow_fail=True)
+    cfiles = sorted(glob.glob(os.path.join(sc1["_out"], "*.ndjson"))) + sorted(glob.glob(os.path.join(sc2["_out"], "*.ndjson")))
+    if not cfiles:
+        raise vlib.ToolError("concurrent-users step produced no trace")
+    ev_before = ctx.cov.get("events_validated", 0)
+    ctx.validate("Trace_PoolConc", cfiles, what="concurrent users of one pool (overlap / reuse clauses)")
+    ctx.cov["concurrent_runs"] = sc1.get("runs", 0) + sc2.get("runs", 0)
+    ctx.cov["concurrent_events"] = ctx.cov.get("events_validated", 0) - ev_before
     # --- evidence
     cov = ctx.cov
     cov["b1_events"] = s1.get("events", 0)
@@ -219,12 +237,17 @@ def run(ctx):
         "SecureMemoryPool and the guard-only pools report nothing on release: the result of a free is the change of the pool's own error counters (secure) or assumed ok (guards whose Drop swallows errors)",
         "the five-level pools expose no accessor to the memory behind a MemOffset: overlap, alignment, region and capacity are checked on offsets, contents are not",
         "pools whose arena base is private (LockFreeMemoryPool, FixedCapacityMemoryPool, BumpAllocator) are checked against the stated capacity, not against an address region",
-        "sequential histories only (concurrent use is C08); bounded: B2 histories of length L, seeded random B1",
+        "B1/B2 are sequential histories; concurrent users are covered by the random-schedule and stress drivers of C08 (PoolOwnership.tla) run on 29 pool configurations, the exhaustive TLC-generated schedules stay in C08; bounded: B2 histories of length L, seeded random B1",
         "HugePageAllocator: the machine has no hugepages, every request is refused (vacuous subject)",
     ]
 
 
 def replay(ctx, path):
+    rep0 = json.load(open(path))
+    if rep0.get("trace_spec") == "Trace_PoolConc":
+        # a run of the concurrent-users step: re-executed by the C08 driver, judged by the same trace spec
+        from props import C08
+        return C08.replay(ctx, path)
     """re-execute the subject of a replay file against the current tree and validate again"""
     rep = json.load(open(path))
     ctx.build(BIN)
